@@ -83,10 +83,9 @@ impl Prop for C10 {
         "C10"
     }
     fn cases(&self, tier: Tier) -> u64 {
-        tier.pick(200_000, 3_000_000)
+        tier.pick(800_000, 3_000_000)
     }
     fn strategy(&self, _tier: Tier) -> BoxedStrategy<Case> {
-        let lat = prop_oneof![3 => gen::latitude(60.0), 3 => (46.0..=60.0f64, any::<bool>()).prop_map(|(l, s)| if s { l } else { -l })].boxed();
         let plat = prop_oneof![4 => -60.0..=60.0f64, 1 => Just(48.5), 1 => prop_oneof![Just(60.0), Just(-60.0), Just(0.0), Just(-48.5)]];
         let spec = (gen::pick(&gen::NAMED_METHODS), gen::pick(&POLICIES), plat, 1.0..=120.0f64, 1.0..=120.0f64, any::<bool>()).prop_map(
             |(method, policy, plat, fi, ii, set_iv)| {
@@ -109,7 +108,23 @@ impl Prop for C10 {
                 s
             },
         );
-        (gen::site_lat(lat, 1.0), spec, gen::date()).prop_map(|(site, spec, date)| Case { site, spec, date }).boxed()
+        // 'invalid' variants and AngleBased only act on days with a missing time: for them most of the mass is put,
+        // by construction, at 47-60 deg in the local summer half-year (where Fajr/Isha disappear)
+        (spec, gen::date(), 1600..=2399i32, 0.0..1.0f64, any::<bool>(), 0u8..10, gen::latitude(60.0), 47.0..=60.0f64)
+            .prop_flat_map(|(spec, date, year, u, south, kind, lat_any, lat_hi)| {
+                let acts_only_when_missing = gen::policy_is_invalid_kind(spec.policy) || spec.policy == gen::P_ANGLE;
+                let (lat, date) = if acts_only_when_missing && kind < 8 {
+                    let lat = if south { -lat_hi } else { lat_hi };
+                    let centre = if south { gen::ymd(year, 12, 21) } else { gen::ymd(year, 6, 21) };
+                    (lat, gen::clamp_date(centre + chrono::Duration::days((u * 150.0) as i64 - 75)))
+                } else if kind < 3 {
+                    (if south { -lat_hi } else { lat_hi }, date)
+                } else {
+                    (lat_any, date)
+                };
+                gen::site_lat(Just(lat).boxed(), 1.0).prop_map(move |site| Case { site, spec: spec.clone(), date })
+            })
+            .boxed()
     }
     fn check(&self, c: &Case, st: &mut Stats) -> Result<(), Failure> {
         st.eval();
